@@ -19,6 +19,15 @@ for p in props:
     for k, v in leanspec.SPEC.get(pid, {}).items():
         if not hasattr(m, k):
             setattr(m, k, v)
+    lean = getattr(m, "LEAN", {})
+    thms = [t.split(".")[-1] for t in lean.get("theorems", []) if ".Bridge." not in t]
+    bridges = [t.split("Bridge.")[-1] for t in lean.get("theorems", []) if ".Bridge." in t]
+    gaps = list(getattr(m, "ASSUMPTIONS", []))
+    text = ("Lean 4 theorems about the executable model, for all inputs/histories of the model: %s. " % ", ".join(thms[:14]) +
+            ("Bridge lemmas over code regenerated from /repo on every run: %s. " % ", ".join(bridges[:10]) if bridges else "") +
+            "Tie to the code: regenerated tables/regexes/translated functions (Bridge), model-vs-implementation correspondence through the native "
+            "driver, and a python oracle on the real library that turns a broken tie into a concrete replay. "
+            "Stated gaps: " + (" | ".join(gaps) if gaps else "none"))
     checks.append({
         "property_id": pid,
         "quick_cmd": "./check %s --tier quick" % pid,
@@ -26,7 +35,7 @@ for p in props:
         "evidence_file": "evidence/%s.json" % pid,
         "replay_cmd_template": "./check %s --replay {path}" % pid,
         "engine": "lean4-model+correspondence",
-        "level_claimed": {"category": "proof", "text": getattr(m, "LEVEL_TEXT", "Lean 4 theorems about the hand-written executable model (all inputs), tied to /repo on every run by regenerated tables (Bridge lemmas) and a model-vs-implementation correspondence; python oracle on the real library searches a failing input."), "design_ref": "DESIGN.md §6 " + pid},
+        "level_claimed": {"category": "proof", "text": getattr(m, "LEVEL_TEXT", text), "design_ref": "DESIGN.md §12 (as built) and §6 " + pid},
         "level_note": getattr(m, "LEVEL_NOTE", "Trusted: Lean kernel; axioms propext/Classical.choice/Quot.sound; translator/extract.py; harness + oracle. The model is hand-written: the theorems are about the model, the tie to the code is differential (bounded) plus exact table extraction."),
         "technique": getattr(m, "TECHNIQUE", "Lean 4 proof over executable model + generated-table bridge + differential correspondence"),
     })
